@@ -9,7 +9,7 @@
    finc k t / relc k t = number of __gc / ReleaseResources calls on k since k
    was last marked; wantsF / wantsR = the flags of that last marking. *)
 From Coq Require Import NArith List Sorted Permutation.
-From GV Require Import GC.ClonePool GC.Lemmas GC.Proofs GC.Theorems.
+From GV Require Import GC.ClonePool GC.Lemmas GC.Proofs GC.Theorems GC.Order.
 Import ListNotations.
 Open Scope N_scope.
 
@@ -62,6 +62,17 @@ Theorem C18_close_order_reverse_mark :
   (NoDup (map eOrd sel) -> forall l, StronglySorted sdesc l -> Permutation l sel -> l = sort_desc sel).
 Proof. exact close_order_reverse_mark. Qed.
 Print Assumptions C18_close_order_reverse_mark.
+
+(* unconditional: for every sequence of pool calls, each extraction sorts pairwise distinct mark
+   orders; its result is strictly descending and is the only such arrangement *)
+Theorem C18_extraction_order_unique :
+  forall os,
+  let p := fold_left (fun q o => fst (step q o)) os pool0 in
+  forall sel, In sel [filter notFin (regList p); pendF p; pendR p ++ filter notRel (regList p); pendR p] ->
+  StronglySorted sdesc (sort_desc sel) /\
+  forall l, StronglySorted sdesc l -> Permutation l sel -> l = sort_desc sel.
+Proof. exact extraction_order_unique. Qed.
+Print Assumptions C18_extraction_order_unique.
 
 Theorem C18_never_finalized_while_reachable :
   forall es w k, wrun world0 es = Some w ->
